@@ -133,6 +133,8 @@ func c10Order(c *Ctx) *RuleResult {
 					create = call
 				case sel.Sel.Name == "Run" && strings.HasSuffix(exprStr(sel.X), ".runner"):
 					run = call
+				case runnerRunCallers(p)[calleeOf(info, call)]:
+					run = call
 				case sel.Sel.Name == "UploadOutputs":
 					upload = call
 				case uploadOutputsCallers(p)[calleeOf(info, call)]:
